@@ -52,7 +52,7 @@ def lex(s):
             while j < n:
                 if s[j] in "eEpP" and j + 1 < n and s[j + 1] in "+-":
                     j += 2
-                elif s[j] in _IDC or s[j] == ".":
+                elif s[j] in _IDC or s[j] == "." or ord(s[j]) >= 0x80:
                     j += 1
                 else:
                     break
@@ -72,9 +72,9 @@ def lex(s):
             out.append(s[i:j])
             i = j
             continue
-        if c in _IDC:
+        if c in _IDC or ord(c) >= 0x80:          # characters outside the basic set are identifier characters
             j = i
-            while j < n and s[j] in _IDC:
+            while j < n and (s[j] in _IDC or ord(s[j]) >= 0x80):
                 j += 1
             out.append(s[i:j])
             i = j
